@@ -18,6 +18,10 @@ from sx.runner import Unit
 ID = "C12"
 FUNCTIONS = [
     "nessai.samplers.base.BaseNestedSampler.checkpoint",
+    "nessai.samplers.nestedsampler.NestedSampler.nested_sampling_loop",
+    "nessai.samplers.importancesampler.ImportanceNestedSampler.nested_sampling_loop",
+    "nessai.samplers.importancesampler.ImportanceNestedSampler.finalise",
+    "nessai.samplers.importancesampler.ImportanceNestedSampler.checkpoint",
     "nessai.samplers.base.BaseNestedSampler.__getstate__",
     "nessai.samplers.base.BaseNestedSampler.resume_from_pickled_sampler",
     "nessai.samplers.nestedsampler.NestedSampler.resume_from_pickled_sampler",
@@ -44,7 +48,7 @@ ASSUMPTIONS = [
     "pickle round-trips a state dictionary faithfully (deep copy); torch weight files are outside this check (C11)",
     "the resuming process passes a fresh model object (evaluation counter 0), as a new process does",
     "FlowProposal.initialise / ImportanceFlowModel.resume (network construction, torch) are stubs",
-    "checkpoint_clock: datetime.datetime.now() returns arbitrary non-decreasing instants; safe_file_dump and the checkpoint callback are no-ops",
+    "checkpoint_clock / resume_clock: datetime.datetime.now() returns arbitrary non-decreasing instants; safe_file_dump and the checkpoint callback are no-ops; in resume_clock the stopping rule is already met when the run is resumed, so the loop body is not entered (nothing in it touches the clock), finalisation internals (final flow, plots, KL) are stubs",
 ]
 OUTSIDE = ["real pickle / torch serialisation", "that a killed-and-resumed real run completes (bookkeeping of the interrupted iteration: C13)", "float32 agreement of re-derived densities"]
 
@@ -495,6 +499,112 @@ def make_checkpoint_clock(mode, k):
     return body
 
 
+def make_resume_clock(which):
+    """Timing across a resume: the checkpoint written by the real checkpoint() is loaded in a 'new process' after an arbitrary
+    downtime, the real loop entry of the sampler runs (configured to stop at once) up to its next real checkpoint; the sampling
+    time then lies between the checkpointed total and that total plus the wall-clock time of the new process (the segment before
+    the checkpoint and the downtime are not counted again)."""
+    def body(ctx):
+        import nessai.samplers.base as base
+        from nessai.samplers.nestedsampler import NestedSampler
+        from nessai.samplers.importancesampler import ImportanceNestedSampler
+        import nessai.samplers.nestedsampler as nsm
+        import nessai.samplers.importancesampler as insm
+        cls = NestedSampler if which == "standard" else ImportanceNestedSampler
+        instants = []
+
+        class _DT:
+            @staticmethod
+            def now():
+                t = ctx.real(ctx.fresh("t"), 0, 1000)
+                if instants:
+                    ctx.assume(t >= instants[-1])
+                instants.append(t)
+                return _Instant(t)
+        fake = type("fake_datetime", (), {"datetime": _DT, "timedelta": datetime.timedelta})
+        snaps = []
+        old = cls.__new__(cls)
+        s0 = ctx.real("sampling_time_before", 0, 1000)
+        old.sampling_time = _Delta(s0)
+        old.history = None
+        old.iteration = 5
+        old.checkpoint_on_iteration = True
+        old._last_checkpoint = 0
+        old.checkpoint_interval = 1
+        old.resume_file = "out/resume.pkl"
+        old.save_existing_checkpoint = False
+        old.checkpoint_callback = lambda s: snaps.append(dict(s.__dict__))      # what pickle sees at dump time
+        mods = [base, nsm, insm]
+        saved = [(m, m.datetime) for m in mods if hasattr(m, "datetime")]
+        for m, _ in saved:
+            m.datetime = fake
+        try:
+            old.sampling_start_time = base.datetime.datetime.now()
+            old.checkpoint(periodic=True, force=True)
+            ctx.prove(len(snaps) == 1, "the checkpoint was written")
+            if len(snaps) != 1:
+                return
+            s_ckpt = snaps[0]["sampling_time"].total_seconds()
+            # ---- new process, after an arbitrary downtime ------------------------------------------------------------
+            n_old = len(instants)
+            new = cls.__new__(cls)
+            new.__dict__.update(snaps[0])
+            new.checkpoint_callback = lambda s: snaps.append(dict(s.__dict__))
+            new.finalised = False
+            new._close_pool = False
+            new.training_time = datetime.timedelta()
+            new.model = type("M", (), {"likelihood_evaluations": 3, "likelihood_evaluation_time": datetime.timedelta(), "from_unit_hypercube": staticmethod(lambda x: x)})()
+            st = type("S", (), {"logZ": 0.0, "log_evidence_error": 0.1, "info": [0.0], "compute_uncertainty": lambda self: 0.1, "effective_n_posterior_samples": 1.0})()
+            if which == "standard":
+                new.initialised = True
+                new.prior_sampling = False
+                new.check_resume = lambda: None
+                new.iteration = 0
+                new.condition, new.tolerance = 0.0, 1.0          # stopping rule already met: the loop body is not entered
+                new.state = st
+                new.finalise = lambda: None
+                new.check_insertion_indices = lambda rolling=False: None
+                new._uninformed_proposal = new._flow_proposal = type("P", (), {"population_time": datetime.timedelta()})()
+                new.nested_samples = []
+                try:
+                    new.nested_sampling_loop()
+                except Exception as e:
+                    ctx.fail("the resumed loop entry raised " + type(e).__name__, str(e))
+                    return
+            else:
+                new.initialise = lambda: None
+                new._stop_any = True
+                new.criterion, new.tolerance, new.min_iteration = [0.0], [1.0], 0     # stopping rule already met
+                new.stopping_criterion = ["ratio"]
+                new._train_final_flow = False
+                new.draw_iid_live = False
+                new.bootstrap = False
+                new.iid_samples = None
+                new.training_samples = type("T", (), {"finalise": lambda self: None, "samples": np.zeros(1), "state": st})()
+                new.kl_divergence = lambda x: 0.0
+                new.produce_plots = lambda: None
+                new.draw_samples_time = new.add_and_update_samples_time = datetime.timedelta()
+                new.plot = False
+                try:
+                    new.nested_sampling_loop()
+                except Exception as e:
+                    ctx.fail("the resumed loop entry raised " + type(e).__name__, str(e))
+                    return
+            ctx.prove(len(snaps) == 2, "the resumed run wrote its next checkpoint")
+            if len(snaps) != 2:
+                return
+            st_new = snaps[1]["sampling_time"].total_seconds()
+            ctx.prove(len(instants) > n_old, "the new process read the clock")
+            wall_new = instants[-1] - instants[n_old]
+            ctx.prove(st_new >= s_ckpt, "sampling time is not reset by the resume")
+            ctx.prove(st_new <= s_ckpt + wall_new, "sampling time is not double counted across the resume: at most the checkpointed total plus the wall-clock time of the new process")
+        finally:
+            for m, dt in saved:
+                m.datetime = dt
+        ctx.cover("end")
+    return body
+
+
 def units(tier):
     us = []
     opts = dict()
@@ -505,6 +615,9 @@ def units(tier):
     for slq in (False, True):
         for iid in (False, True):
             us.append(Unit(f"ins[save_log_q={slq},iid={iid}]", make_ins(slq, iid), MODS, opts, expect_cover=["end"], twin_runs=5, witness_every=1, nproc=1))
+    for which in ("standard", "ins"):
+        us.append(Unit(f"resume_clock[{which}]", make_resume_clock(which), MODS + ["nessai.samplers.base", "nessai.samplers.nestedsampler", "nessai.samplers.importancesampler"], opts,
+                       expect_cover=["end"], twin_runs=10, witness_every=1, nproc=1))
     for mode in ("callback", "file"):
         k = 2 if tier == "quick" else 4
         us.append(Unit(f"checkpoint_clock[{mode},checkpoints={k}]", make_checkpoint_clock(mode, k), MODS + ["nessai.samplers.base"], opts, expect_cover=["end"],
